@@ -90,6 +90,11 @@ def run(ck):
             ck.case(fp=('pair', q, fam, str(pr)), nontrivial=fam == 'cross')
             known = [(t1, t2, a.point(t1))] if fam == 'cross' else []
             pair_case(ck, '%s Q=%d' % (fam, q), a, b, known, 1e-5, {'pr': pr, 'q': q})
+            if pr['n1'] == 1 or pr['n2'] == 1:
+                # the same pair drawn small and far away (line pairs are cheap): same crossings
+                fa, fb = a.scaled(1e-3).translated(4000 + 3000j), b.scaled(1e-3).translated(4000 + 3000j)
+                ck.case(fp=('pair-far', q, fam, str(pr)), nontrivial=fam == 'cross')
+                pair_case(ck, '%s Q=%d scaled 1e-3 at 4000+3000j' % (fam, q), fa, fb, [(t1, t2, fa.point(t1))] if fam == 'cross' else [], 1e-5, {'pr': pr, 'q': q, 'far': True})
             if fam == 'cross' and q == 3 and not isinstance(a, sp.Line):
                 # touching / near-miss configurations: nothing is known about the count, whatever is returned must be sound
                 for name, x, ln in cm.touching_from(a, b, t1, t2):
